@@ -14,6 +14,9 @@ CONSTANTS
   Hook = FALSE
   Steer = FALSE
   Emit = FALSE
+  Clamp = "min1"
+  ErrSet = {}
+  AEIgnore = "nil"
 INVARIANTS PTypeOK GuardsHold NoStuck EndHolds Counters CollectorClose NoSendOnClosedCollector
 VIEW View
 CHECK_DEADLOCK FALSE
